@@ -12,7 +12,8 @@ Gate 4 (take trace): every take the hook observed must end below the model's pea
         (one-sided); exact trace equality is counted as a diagnostic.
 Gate 5 (requirement is exact): the real code succeeds in a window of `req` bytes and fails in `req-8`.
 An operation that panics in its exact-size window violates C12: reported with key "<op>:exact-window"
-(or "<op>:exact-window:n<8" when it only happens for ring degrees below 8).
+(one class key "ring-degree-below-8:exact-window" when it only happens for N < 8; "split_mut:len%64!=0"
+for split_mut).  The corpus holds the shapes of the defects repaired by docs/fixes/01-07: they must stay ok.
 """
 from . import common
 
@@ -173,6 +174,9 @@ def sh_none(rng, big):
 OPS = {
     "split_mut": (sh_split, ALL, True, 2),
     "vec_znx_normalize": (sh_norm, ALL, True, 1),
+    "vec_znx_normalize_assign": (sh_leaf, ALL, True, 1),
+    "vec_znx_lsh_assign": (sh_leaf, ALL, True, 1),
+    "vec_znx_rsh_assign": (sh_leaf, ALL, True, 1),
     "vec_znx_lsh": (sh_leaf, ALL, True, 1),
     "vec_znx_rsh": (sh_leaf, ALL, True, 1),
     "vec_znx_rotate_assign": (sh_leaf, ALL, True, 1),
@@ -196,6 +200,8 @@ OPS = {
     "lwe_decrypt": (sh_lwe, ALL, True, 1),
     "glwe_encrypt_sk": (sh_glwe, ALL, True, 2),
     "glwe_encrypt_pk": (sh_glwe_pk, ALL, True, 8),   # glwe_public_key_generate allocates its own exact scratch: panics for N<8
+    "glwe_encrypt_zero_sk": (sh_glwe, ALL, True, 2),
+    "glwe_encrypt_zero_pk": (sh_glwe_pk, ALL, True, 8),
     "glwe_decrypt": (sh_glwe, ALL, True, 2),
     "glwe_normalize": (None, ALL, True, 2),
     "glwe_normalize_assign": (sh_glwe, ALL, True, 2),
